@@ -16,7 +16,7 @@ from checks import scenarios as S
 PROP = "C01"
 LEVEL = "proof"
 THEOREMS = {
-    # "Proofs.Props.C01": ["MsPack.Cab.C01_headers_roundtrip", "MsPack.Cab.C01_stored_block_roundtrip"],
+    "Proofs.Props.C01": ["MsPack.Cab.C01_headers_roundtrip"],
     "Proofs.Props.Tables": ["MsPack.TableObligations.lzx_extra_bits", "MsPack.TableObligations.lzx_position_base",
                             "MsPack.TableObligations.lzx_position_slots", "MsPack.TableObligations.qtm_extra_bits",
                             "MsPack.TableObligations.qtm_position_base", "MsPack.TableObligations.qtm_length_extra",
@@ -34,7 +34,77 @@ RULE = ("cab.plan: random plans from gen/vgen/cab.py (1-3 folders; stored, MSZIP
 
 BUFS = [4, 5, 16, 17, 4096, 65536]
 
+def spec_header_cases(ctx):
+    """the *writer* the C01 theorem is stated against (Lean `Cab.encodeHeaders`, run by the driver as `prim enccab`)
+    is fed to the real cabd_open: random listings -> spec bytes (+ one stored data block per folder) -> listing
+    printed by the implementation must be the listing asked for"""
+    import subprocess, tempfile
+    rng = ctx.rng
+    n = 25 if ctx.tier == "quick" else 400
+    specs = []
+    for _ in range(n):
+        nfo = rng.choice([1, 1, 2, 3, 10]); nfi = rng.choice([1, 2, 3, 8, 40])
+        folders = [(rng.choice([0, 36, 1000, 0xfffffff0]), rng.choice([0, 1, 2, 65535]), rng.choice([0, 1, 0x1503, 0x0f02, 0xffff])) for _ in range(nfo)]
+        files = []
+        for _ in range(nfi):
+            ln = rng.choice([1, 1, 8, 12, 100, 255])
+            name = bytes(rng.choice([rng.randrange(1, 256), rng.choice(b"abc./\\ ")]) for _ in range(ln))
+            files.append((name, rng.choice([0, 1, 70000, 0xffffffff]), rng.choice([0, 5, 0xfffffffe]), rng.randrange(nfo), rng.choice([0, 0x20, 0xa1, 0xffff]),
+                          rng.choice([1980, 1997, 2107, rng.randrange(1980, 2108)]), rng.randrange(16), rng.randrange(32), rng.randrange(32), rng.randrange(64), 2 * rng.randrange(32)))
+        embedded = rng.random() < 0.4          # found by search() at a non-zero offset: the scanner wants a plausible size field
+        enc_len = 36 + 8 * nfo + sum(17 + len(f[0]) for f in files)
+        specs.append((enc_len if embedded else rng.choice([0, 1000, 0xffffffff]), rng.randrange(65536), rng.randrange(65536), folders, files, embedded))
+    reqs = []
+    for (ln, sid, six, folders, files, embedded) in specs:
+        t = ["prim", "enccab", str(ln), str(sid), str(six), str(len(folders))]
+        for f in folders: t += [str(x) for x in f]
+        t.append(str(len(files)))
+        for f in files: t += [f[0].hex()] + [str(x) for x in f[1:]]
+        reqs.append(" ".join(t))
+    with tempfile.NamedTemporaryFile("w", suffix=".case", dir=C.BUILD, delete=False) as tf:
+        tf.write("\n".join(reqs) + "\n"); tp = tf.name
+    try:
+        out = [l for l in subprocess.run([C.DRIVER, tp], capture_output=True, text=True).stdout.splitlines() if l.startswith("prim enccab")]
+    finally:
+        os.unlink(tp)
+    if len(out) != len(specs) or any("bad-args" in l for l in out):
+        C.log(f"C01: driver answered {len(out)} of {len(specs)} prim enccab requests"); return
+    for (ln, sid, six, folders, files, embedded), l in zip(specs, out):
+        hexs = l.split(" ")[2]
+        pre = rng.choice([b"x", b"xx" * 7, b"junk" * 100]) if embedded else b""
+        blob = pre + bytes.fromhex(hexs) + rng.choice([b"", b"trailing bytes"])
+        ops = [f"file x.cab {blob.hex()}", "new cab", "param i0 SEARCHBUF 64"] + (["open i0 x.cab"] if not pre else ["search i0 x.cab"])
+        yield ops + ["destroy i0"], dict(family="cab.spec-headers", pre=len(pre), want=dict(len=ln, set=sid, idx=six,
+                     folders=[[f[2], f[1]] for f in folders],
+                     files=[[f[0].hex(), f[1], f[4], "%d/%d/%d" % (f[5], f[6], f[7]), "%d:%d:%d" % (f[8], f[9], f[10]), f[3], f[2]] for f in files]))
+
+def judge_spec(ctx, meta, impl, model):
+    fs = []
+    w = meta["want"]
+    b = next((b for b in impl if b[0].startswith(("open", "search"))), None)
+    if b is None or " st=0" not in b[0] or "NULL" in b[0]:
+        return [Finding("violation", f"cabinet written by the specification's encoder is refused: {b[0] if b else None}")]
+    head = C.kv(next((l for l in b[1:] if l.startswith("cab ")), "cab"))
+    got_fo = [[int(C.kv(l)["comp"], 16), int(C.kv(l)["nblocks"])] for l in b[1:] if l.startswith("folder ")]
+    got_fi = [[C.kv(l)["name"], int(C.kv(l)["len"]), int(C.kv(l)["attr"], 16), C.kv(l)["date"], C.kv(l)["time"], int(C.kv(l)["folder"]), int(C.kv(l)["off"])] for l in b[1:] if l.startswith("file ")]
+    if (int(head.get("off", -1)), int(head.get("len", -1)), int(head.get("set", -1)), int(head.get("idx", -1))) != (meta["pre"], w["len"], w["set"], w["idx"]):
+        fs.append(Finding("violation", f"spec-encoded cabinet: header listed as {head}, specified {(meta['pre'], w['len'], w['set'], w['idx'])}"))
+    if got_fo != w["folders"]:
+        fs.append(Finding("violation", f"spec-encoded cabinet: folders listed {got_fo[:4]}, specified {w['folders'][:4]}"))
+    if got_fi != w["files"]:
+        k = next((i for i, (a, c) in enumerate(zip(got_fi, w["files"])) if a != c), min(len(got_fi), len(w["files"])))
+        fs.append(Finding("violation", f"spec-encoded cabinet: file {k} listed {got_fi[k] if k < len(got_fi) else None}, specified {w['files'][k] if k < len(w['files']) else None}"))
+    if model is not None:
+        pi = [[l.split(" edges=")[0] for l in x] for x in impl if x[0].startswith(("open", "search"))]
+        pm = [x for x in model if x[0].startswith(("open", "search"))]
+        if pi != pm: fs.append(Finding("mismatch", f"model and implementation differ on a spec-encoded cabinet: {str(pi)[:150]} vs {str(pm)[:150]}"))
+    return fs
+
 def generate(ctx):
+    yield from spec_header_cases(ctx)
+    yield from plan_cases(ctx)
+
+def plan_cases(ctx):
     rng = ctx.rng
     n = 70 if ctx.tier == "quick" else 2500
     sizes = ["small"] * 6 + ["medium"] * 2 + (["large"] if ctx.tier == "thorough" else [])
@@ -91,6 +161,8 @@ def judge(ctx, meta, impl, model):
     crash = [b[0] for b in impl if b[0].startswith(("CRASH", "TIMEOUT"))]
     if crash:
         return [Finding("violation", "well-formed cabinet: implementation " + crash[0])]
+    if meta["family"] == "cab.spec-headers":
+        return judge_spec(ctx, meta, impl, model)
     mem = meta["members"]
     ex = [C.kv(b[0]) for b in impl if b[0].startswith("extract ")]
     if not meta["search"]:
